@@ -53,6 +53,7 @@ type plJob struct {
 	Data      []plDgram `json:"data"`      // then these, interleaved by the scheduler
 	Lazy      int       `json:"lazy"`      // the consumer takes a message with probability 1/Lazy per move
 	Retire    int       `json:"retire"`    // dynamic workers: how many workers are told to quit during the data phase
+	Mirror    string    `json:"mirror"`    // "": mirroring off; "on": enabled, the copies are taken and given back like the mirror workers do; "full": enabled and the mirror queue is full
 }
 
 type plEvent struct {
@@ -128,6 +129,8 @@ type plProto struct {
 	decoded func() uint64
 	alone   func(tpls []plDgram, d plDgram) []byte
 	class   func(tpls []plDgram, d plDgram) string
+	mirror  func(mode string) (restore func()) // nil: the protocol has no mirror
+	mdrain  func() [][]byte                     // the copies queued for the mirror workers, taken out (full backing buffers)
 }
 
 func plAdapter(proto string, size int) plProto {
@@ -139,6 +142,27 @@ func plAdapter(proto string, size int) plProto {
 			send:    func(r *net.UDPAddr, b []byte) { ipfixUDPCh <- IPFIXUDPMsg{r, b} },
 			qlen:    func() int { return len(ipfixUDPCh) },
 			start:   func(q chan struct{}) { go i.ipfixWorker(q) },
+			mirror: func(mode string) func() {
+				ipfixMirrorEnabled = true
+				if mode == "full" {
+					for len(ipfixMCh) < cap(ipfixMCh) {
+						ipfixMCh <- IPFIXUDPMsg{&net.UDPAddr{IP: net.IP{10, 9, 9, 9}}, make([]byte, 8)}
+					}
+				}
+				return func() {
+					ipfixMirrorEnabled = false
+					for len(ipfixMCh) > 0 {
+						<-ipfixMCh
+					}
+				}
+			},
+			mdrain: func() (out [][]byte) {
+				for len(ipfixMCh) > 0 {
+					m := <-ipfixMCh
+					out = append(out, m.body)
+				}
+				return
+			},
 			decoded: func() uint64 { return atomic.LoadUint64(&i.stats.DecodedCount) },
 			class: func(tpls []plDgram, d plDgram) string {
 				c := ipfix.GetCache("")
@@ -231,6 +255,27 @@ func plAdapter(proto string, size int) plProto {
 		return plProto{pool: sFlowBuffer, mq: sFlowMQCh,
 			send:    func(r *net.UDPAddr, b []byte) { sFlowUDPCh <- SFUDPMsg{r, b} },
 			qlen:    func() int { return len(sFlowUDPCh) },
+			mirror: func(mode string) func() {
+				sFlowMirrorEnabled = true
+				if mode == "full" {
+					for len(sFlowMCh) < cap(sFlowMCh) {
+						sFlowMCh <- SFUDPMsg{&net.UDPAddr{IP: net.IP{10, 9, 9, 9}}, make([]byte, 8)}
+					}
+				}
+				return func() {
+					sFlowMirrorEnabled = false
+					for len(sFlowMCh) > 0 {
+						<-sFlowMCh
+					}
+				}
+			},
+			mdrain: func() (out [][]byte) {
+				for len(sFlowMCh) > 0 {
+					m := <-sFlowMCh
+					out = append(out, m.body)
+				}
+				return
+			},
 			start:   func(q chan struct{}) { go s.sFlowWorker(q) },
 			decoded: func() uint64 { return atomic.LoadUint64(&s.stats.DecodedCount) },
 			class: func(tpls []plDgram, d plDgram) string {
@@ -325,9 +370,34 @@ func plRun(job plJob) (res plResult) {
 		dIndex[string(plBytes(d.Buf))] = i + 1
 	}
 
+	known := map[string]bool{} // every datagram fed, templates included
+	for _, d := range append(append([]plDgram{}, job.Templates...), job.Data...) {
+		b := plBytes(d.Buf)
+		if len(b) > job.UDPSize {
+			b = b[:job.UDPSize]
+		}
+		known[string(b)] = true
+	}
+	if job.Mirror != "" && ad.mirror != nil {
+		defer ad.mirror(job.Mirror)()
+	}
 	workers := map[int]*plWorker{} // by goroutine id
 	waiting := 0                   // workers blocked on the empty queue
 	ev := func(e plEvent) { res.Events = append(res.Events, e) }
+	// what the mirror workers do with the queued copies: take them, send them, give the buffer back
+	mirrorOut := func() {
+		if job.Mirror != "on" || ad.mdrain == nil {
+			return
+		}
+		for _, b := range ad.mdrain() {
+			n := 0
+			if known[string(b)] {
+				n = 1
+			}
+			ev(plEvent{Ev: "MirOut", B: idOf(b), N: n})
+			ad.pool.Put(b[:job.UDPSize])
+		}
+	}
 
 	probe := func() {
 		// drain the pool: everything it can hand out right now
@@ -377,6 +447,7 @@ func plRun(job plJob) (res plResult) {
 				e.D = w.d
 			}
 			ev(e)
+			mirrorOut()
 			probe()
 			return true
 		case <-time.After(5 * time.Second):
